@@ -623,3 +623,37 @@ func naturalLoops(fn *ssa.Function) []natLoop {
 	}
 	return out
 }
+
+// sameValue: two SSA values are the same pure expression (go/ssa performs no
+// CSE): identical value, equal constants, len/cap of the same value, loads of
+// the same address, or the same field/index selection.
+func sameValue(a, b ssa.Value) bool {
+	a, b = cv(a), cv(b)
+	if a == b {
+		return true
+	}
+	switch x := a.(type) {
+	case *ssa.Const:
+		y, ok := b.(*ssa.Const)
+		return ok && x.Value != nil && y.Value != nil && x.Value.ExactString() == y.Value.ExactString() && types.Identical(x.Type(), y.Type())
+	case *ssa.Call:
+		y, ok := b.(*ssa.Call)
+		if !ok {
+			return false
+		}
+		bx, ok1 := x.Call.Value.(*ssa.Builtin)
+		by, ok2 := y.Call.Value.(*ssa.Builtin)
+		if ok1 && ok2 && bx.Name() == by.Name() && (bx.Name() == "len" || bx.Name() == "cap") {
+			return sameValue(x.Call.Args[0], y.Call.Args[0])
+		}
+	case *ssa.UnOp:
+		y, ok := b.(*ssa.UnOp)
+		if ok && x.Op == y.Op {
+			if x.Op == token.MUL {
+				return sameAddr(x.X, y.X)
+			}
+			return sameValue(x.X, y.X)
+		}
+	}
+	return false
+}
